@@ -18,13 +18,19 @@ META = {'title': 'SNA save then load restores the machine; saving is side-effect
  'design_ref': 'DESIGN.md section 8, C13',
  'technique': 'Lean 4 proof: exact characterisation of load-after-save over abstract banks (list append/slice '
               'lemmas, induction over the bank lists), parameterised by the candidate repairs; tied to the code '
-              'by differential correspondence with byte-exact comparison of the saved file',
+              'by differential correspondence with byte-exact comparison of the saved file, and by a '
+              'statement-by-statement translation of the header stores / setters and file pieces of sna.rs into Lean '
+              'on every run',
  'level_text': 'Round-trip and purity theorems in Lean 4 for all machine states, all receiving states and every '
                'bank at 0xC000 over a model of sna.rs parameterised by the candidate repairs (full statements for '
                'the repaired code, partial statements plus proved counter-examples for the code as it is); the '
                'model variant matching the tree under test is detected and tied to the Rust code on every run by '
                'a correspondence check (byte-exact saved file, full state after load) with the executable SNA '
-               'layout spec adjudicating every disagreement.',
+               'layout spec adjudicating every disagreement; in addition the byte layout of sna.rs (every header '
+               'store of save, every setter of load with the bytes it is fed, the order and offsets of the pieces of '
+               'the 48K / 128K file) is translated from the source text on every run (tools/extract.py, table '
+               'SnaLayout) and proved to be the documented SNA format and exactly the layout the model encodes and '
+               'decodes with (Props/C13X).',
  'level_note': COMMON_NOTE + ' The theorems for the unrepaired code are partial by construction: each known '
                'defect (HL\' written from HL, receiver lock / halt / EI-pending / prefix state surviving a load, '
                '48K save writing PC into live RAM) is excluded by a hypothesis and proved to be a real '
